@@ -211,6 +211,44 @@ def manip_of(F, item):
     return item
 
 
+EXP_DIGITS = {"": 3, "l": 3, "L": 4}     # most decimal digits of the exponent of a double / long double in %e notation (IEEE double, x87 extended)
+
+
+def snprintf_truncations(t):
+    """Format-length analysis of the snprintf calls inside an evaluated term: for a scientific conversion `%.*e` / `%.*Le` with a
+    concrete precision p and a concrete buffer size n, the longest output is sign + digit + point + p digits + 'e' + sign +
+    exponent digits; when that (plus the terminator) exceeds n, snprintf truncates and the printed number loses its last
+    characters.  (Fixed conversions are not bounded here: their length depends on the magnitude.)"""
+    out, seen = [], set()
+
+    def walk(x):
+        if isinstance(x, tuple) and x:
+            if x[0] == "fn" and isinstance(x[1], str) and x[1].lstrip("?").split("::")[-1] == "snprintf" and len(x) >= 6 and id(x) not in seen:
+                seen.add(id(x))
+                size, fmt, prec = x[3], x[4], x[5]
+                text = "".join(p for p in fmt.parts if isinstance(p, str)) if isinstance(fmt, ev.Str) else None
+                m = re.fullmatch(r"%\.\*(l|L)?e", text or "")
+                if m and isinstance(size, int) and isinstance(prec, int):
+                    need = 1 + 1 + 1 + prec + 1 + 1 + EXP_DIGITS[m.group(1) or ""] + 1
+                    if size < need:
+                        out.append("snprintf(buffer, %d, \"%s\", %d, value) can produce %d characters plus the terminator (a negative value with a %d-digit "
+                                   "exponent): the output is truncated and the printed number loses its last exponent digit, so it no longer parses "
+                                   "back to the value" % (size, text, prec, need - 1, EXP_DIGITS[m.group(1) or ""]))
+            for y in x:
+                walk(y)
+        elif isinstance(x, ev.Obj):
+            for y in x.f.values():
+                walk(y)
+        elif isinstance(x, ev.Arr):
+            for y in x.items:
+                walk(y)
+        elif isinstance(x, ev.Str):
+            for y in x.parts:
+                walk(y)
+    walk(t)
+    return out
+
+
 def check_print_number(chk, F, T):
     fs = [f for f in F.by_qname.get("PhQ::Print", []) if "body" in f and len(f["params"]) == 1 and strip_cvref(F.T(f["params"][0]["t"])) == T]
     inst = "PhQ::Print<%s>" % T
@@ -225,6 +263,10 @@ def check_print_number(chk, F, T):
         r = E.rv(res)
         leaf = ("leaf", "value")
         leaves = []
+        trunc = snprintf_truncations(r)
+        if trunc:
+            chk.violated("R1", inst, trunc[0], loc)
+            return
         try:
             walk_tree(r, leaf, (Fraction(0), True, INF, False), leaves, T)
         except Narrowed as x:
